@@ -75,6 +75,8 @@ func semRun(c *Ctx, flavour string, n int, prop string) {
 			src = gen.CallBindProgram(i)
 		case "closures":
 			src = gen.ClosureChainProgram(r)
+		case "destruct":
+			src = gen.DestructProgram(i)
 		default:
 			src = gen.Program(r, semProgOpts(r, flavour))
 		}
@@ -219,7 +221,7 @@ func init() {
 			return runPlain(bc, ugo.Map{}, args), nil
 		},
 		Run: func(c *Ctx) {
-			c.Rule("random scripts (gen.Program; flavours: general, try-heavy, call-heavy, try enumeration, self tail calls, the complete call-binding enumeration (params 0..3 x variadic x explicit args 0..4 x spread none/0..4 x 5 call positions), chains of sibling closures) run by the implementation (compiler+VM, optimizer off) vs the reference semantics Spec/Sem on the same AST: outcome and final globals (side-effect log); also optimizer on at limits {default,1,3} vs off (C01); distinct = distinct (outcome class, outcome hash)")
+			c.Rule("random scripts (gen.Program; flavours: general, try-heavy, call-heavy, try enumeration, self tail calls, the complete call-binding enumeration (params 0..3 x variadic x explicit args 0..4 x spread none/0..4 x 5 call positions), chains of sibling closures, the destructuring enumeration over slices of a live array) run by the implementation (compiler+VM, optimizer off) vs the reference semantics Spec/Sem on the same AST: outcome and final globals (side-effect log); also optimizer on at limits {default,1,3} vs off (C01); distinct = distinct (outcome class, outcome hash)")
 			semRun(c, "general", 700*c.Scale, "C02")
 			semRun(c, "try", 500*c.Scale, "C03")
 			semRun(c, "calls", 300*c.Scale, "C02")
@@ -227,6 +229,7 @@ func init() {
 			semRun(c, "tailcall", 300*c.Scale, "C02")
 			semRun(c, "callbind", gen.NumCallBindPrograms, "C02")
 			semRun(c, "closures", 200*c.Scale, "C02")
+			semRun(c, "destruct", gen.NumDestructPrograms, "C02")
 		},
 	})
 }
